@@ -159,6 +159,32 @@ CLAIMED = {
         'must give the same exported text.',
         'Trusted: TLC; the generator; openpyxl for writing the source files.',
         'DESIGN.md 4/C09'),
+    'C10': (
+        'TLC model checking of Cycles.tla (Johnson\'s algorithm as in cycle.py, '
+        'every set pop a nondeterministic choice, vs Elementary(G)) and of the '
+        'lazy calculation machine of Workbook.tla (LazySem) + replay of all '
+        '4-node digraphs and of generated cyclic workbooks under orders and '
+        'hash seeds + TLC trace validation of yields on larger graphs',
+        'Cycles.tla transcribes simple_cycles loop by loop; TLC checks Sound, '
+        'EachOnce and Termination for all 512 digraphs on 3 nodes under every '
+        'choice sequence, and emits Elementary(G) for all 65 536 digraphs on 4 '
+        'nodes; the real simple_cycles runs on each with string node names, '
+        'shuffled insertion orders and 3 (quick) / 8 (thorough) PYTHONHASHSEED '
+        'values in separate processes; yields on random 5-7 node digraphs are '
+        'validated by CyclesTrace.tla. Workbook.tla defines evaluation by need '
+        '(IF / IFERROR evaluate only what is selected), marks the cells that '
+        'wait for themselves #CIRC! and continues with the mark as an error '
+        'value; TLC checks that every order of lazy evaluation agrees with '
+        'LazySem and becomes total. Generated cyclic workbooks (unguarded, '
+        'guarded, fallback, range and name back references) are finished with '
+        'circular=True and calculated under both load paths, shuffled orders '
+        'and the hash seeds, with a watchdog; every cell is compared with '
+        'its expectation class (ordinary value exact, #CIRC! on unavoidable '
+        'cycles, any error downstream).',
+        'Trusted: TLC; the generator. The static cut analysis of the code is '
+        'not transcribed; its two systematic deviations from evaluation by '
+        'need are recorded as known findings.',
+        'DESIGN.md 4/C10'),
     'C13': (
         'TLC model checking of Volatile.tla (NeverFrozen, OncePerEpoch over '
         'every way of obtaining an executable object) + replay with the '
